@@ -1171,3 +1171,6 @@ package graphql
 //@ func selectionPlan.fieldsInOrder
 //@   trusted
 //@   assigns nothing
+//@ func executePlannedSelection
+//@   at[C13,C01] call fieldsInOrder: assert arg0 == sp && sp.conditional && arg1 == eCtx.VariableValues
+//@   at[C13] return: assert !old(sp != nil && sp.conditional) ==> calls("fieldsInOrder") == 0
